@@ -1,4 +1,5 @@
 # C05 — runtime life cycle: wait/stop drain all work, restart works (structural part; DESIGN.md §5 C05)
+import re
 from engine.core import AnalysisBroken, P, T, callee_of, callee_short, cond_atoms, loc_of, strip, forward, block_path
 from engine.kinds import LockFlow, FactFlow, CountFlow, precedes_on_all_paths, always_followed_by, reaching_init
 from .common import facts, lib, local_init
@@ -87,7 +88,8 @@ def run(rep, tier):
         if body is not None:
             rets = [e for _, _, e in body.all_events() if e.get("k") == "return" and e.get("e") is not None]
             if len(rets) == 1:
-                e = strip(rets[0]["e"])
+                from engine.kinds import expand_locals
+                e = strip(expand_locals(body, rets[0]["e"]))
                 a, pos = cond_atoms(e)
                 # normalised: "X < get_global_activity_count()" with X = (get_self_ptr() != nullptr ? 1 : 0)
                 good = pos and a.endswith("< get_global_activity_count()") and "get_self_ptr()" in a and "? 1 : 0" in a
